@@ -450,7 +450,8 @@ React(s, f) ==
   ELSE IF s.cs = "preface" THEN {CloseR, Goaway("PE")}
   ELSE LET base == RfcAdm(s, f)
            c    == Sozu(s, f)
-           errs == {r \in base : r.k \in {"rst", "goaway", "http"}}
+           \* over a flood cap the connection has to go: GOAWAY(ENHANCE_YOUR_CALM), or a GOAWAY for the frame's own error
+           errs == {r \in base : r.k = "goaway"}
            fin  == IF c.r = Goaway("NO") /\ s.cs = "draining" THEN {Goaway("NO")} ELSE {}
        IN fin \cup
           CASE c.why = "flood"  -> {Goaway("EYC")} \cup errs
